@@ -409,7 +409,9 @@ class X:
                 base = self.ev(e.func.value) if isinstance(e.func, ast.Attribute) else "S"
                 if self.q in CAP_ALLOWED:
                     v = pat.const_value(e.args[0]) if e.args else None
-                    if isinstance(v, int) and v < MIN_CAP:
+                    if v is None and e.args:
+                        v = self.class_const_value(e.args[0])        # self.max_denom / Point2D.MAX_DEN = int(1 / tol) ...
+                    if isinstance(v, (int, float)) and v < MIN_CAP:
                         self.flag(e, f"denominator cap {v} is below the documented 10**9")
                     return base
                 self.flag(e, "limit_denominator rounds a rational value on the exact path")
@@ -469,6 +471,50 @@ class X:
         if isinstance(e.func, ast.Name) and e.func.id in self.env:
             return join(self.env.get(e.func.id, "S"), allk)      # curve(u)
         return "S"
+
+
+def _class_const_value(self, e, depth=0):
+    """numeric value of an expression made of literals, class-level constants of the enclosing class (read as
+    self.X / cls.X / Class.X / X), module constants and int() / round() / float() / abs() -- evaluated with Python's own
+    arithmetic, so that `int(1 / 1e-9)` is the 999999999 it really is"""
+    M = self.eng.M
+    cls = M.funcs[self.q].cls
+    if depth > 6:
+        return None
+    v = pat.const_value(e)
+    if v is not None:
+        return v
+    name = None
+    if isinstance(e, ast.Attribute) and isinstance(e.value, ast.Name) and (e.value.id in ("self", "cls") or e.value.id == cls):
+        name = e.attr
+    elif isinstance(e, ast.Name):
+        name = e.id
+    if name is not None:
+        for k in ([cls] + M.mro(cls)[1:] if cls else []):
+            if name in M.class_consts.get(k, {}):
+                return _class_const_value(self, M.class_consts[k][name], depth + 1)
+        mod = M.modules.get(M.funcs[self.q].mod)
+        mc = pat.module_consts(mod) if mod is not None else {}
+        return mc.get(name)
+    if isinstance(e, ast.BinOp):
+        l, r = _class_const_value(self, e.left, depth + 1), _class_const_value(self, e.right, depth + 1)
+        if l is None or r is None:
+            return None
+        try:
+            return {ast.Add: lambda: l + r, ast.Sub: lambda: l - r, ast.Mult: lambda: l * r, ast.Div: lambda: l / r,
+                    ast.FloorDiv: lambda: l // r, ast.Pow: lambda: l ** r, ast.Mod: lambda: l % r}[type(e.op)]()
+        except (KeyError, ZeroDivisionError, OverflowError):
+            return None
+    if isinstance(e, ast.UnaryOp) and isinstance(e.op, ast.USub):
+        v = _class_const_value(self, e.operand, depth + 1)
+        return None if v is None else -v
+    if isinstance(e, ast.Call) and isinstance(e.func, ast.Name) and e.func.id in ("int", "round", "float", "abs") and len(e.args) == 1:
+        v = _class_const_value(self, e.args[0], depth + 1)
+        return None if v is None else {"int": int, "round": round, "float": float, "abs": abs}[e.func.id](v)
+    return None
+
+
+X.class_const_value = _class_const_value
 
 
 def exactness(ctx):
